@@ -103,14 +103,15 @@ def run(check, an: Analysis):
             check.instance('P', 'Scope._disable_interrupts', off and revoked,
                            where_fn(base_disable.fn),
                            'marks the scope closed and revokes its cancel signal')
-    close = an.callee(ISCOPE, '_close_scope')
+    close = an.callee(ISCOPE, '__aexit__')
     resolved = set()
-    for path in an.paths(close):
-        for event in path.events:
-            if is_call_to(event, '_disable_interrupts') and event.kind != 'leave':
-                # the first one reached decides which implementation runs
-                resolved |= {c.fn.qn for c in event_callees(event)}
-                break
+    for which in ('none', 'genexit', 'exc:ext:Exception'):
+        for path in an.paths(close, which):
+            for event in path.events:
+                if is_call_to(event, '_disable_interrupts') and event.kind != 'leave':
+                    # the first one reached decides which implementation runs
+                    resolved |= {c.fn.qn for c in event_callees(event)}
+                    break
     check.instance('P', '_close_scope[InterruptScope]->override',
                    resolved == {ISCOPE + '._disable_interrupts'}, where_fn(close.fn),
                    'closing an until-scope runs the overriding _disable_interrupts: %s'
